@@ -41,6 +41,7 @@ def run(c):
         c.cov["nocompile_corpus"] = {"worlds": len(nc_items), "still_failing": len(nc_dropped)}
     counts = {"export": 0, "import": 0, "indirect-params": 0, "retptr": 0, "through-memory": 0}
     reqs, impl, model = [], [], []
+    dreqs, dimpl, dmodel = [], [], []
     renderings = {}
     for batch, gmap in batches:
         ncompiled += len(gmap)
@@ -68,6 +69,14 @@ def run(c):
             reqs.append(req)
             i_, m_ = bc.value_corr(m, o)
             impl.append(i_); model.append(m_)
+            # which lists take the canonical (buffer reinterpreted / taken over) and which the element-wise path
+            # (fresh collection / buffer, incoming one freed) is visible in the allocation events of the call:
+            # compared with the model's decision (`rustCanon`, through the ledger model) on every export call
+            lc = bc.ledger_counts(o) if m["dir"] == "export" else None
+            if lc is not None:
+                dreqs.append(req)
+                dimpl.append(json.dumps({k: lc[0][k] for k in ("galloc", "gfree", "hostfree")}, sort_keys=True))
+                dmodel.append(json.dumps({k: lc[1][k] for k in ("galloc", "gfree", "hostfree")}, sort_keys=True))
             mem = any(x in m["func"] for x in ("string", "list", "map", "variant", "option", "result")) 
             if mem:
                 counts["through-memory"] += 1
@@ -86,6 +95,7 @@ def run(c):
                          {"config": items[k][0], "wit": items[k][1], "rustc": e})
     c.cov["flags_lift_rendering_per_batch"] = renderings
     c.compare("values", reqs, impl, model, nontrivial=lambda r, o: False)
+    c.compare("canonical-vs-elementwise-list-path", dreqs, dimpl, dmodel, nontrivial=lambda r, o: False)
     c.cov["worlds"] = {"generated": len(items), "corpus": len(corpus), "compiled": ncompiled,
                        "dropped_not_compiling": len(dropped)}
     c.cov["configurations"] = cfgs
